@@ -16,7 +16,10 @@ import time
 VERIF = os.path.dirname(os.path.dirname(os.path.abspath(__file__)))
 SPEC = os.path.join(VERIF, "spec")
 WORK = os.path.join(VERIF, ".work")
-EVID = os.path.join(VERIF, "evidence")
+# runs against something other than /repo itself (seeded changes in scratch worktrees) must not write into
+# the evidence directory that is committed: PICOSVG_REPO set => evidence goes to a scratch directory
+EVID = os.path.join(VERIF, "evidence") if os.environ.get("PICOSVG_REPO", "/repo") == "/repo" \
+    else os.path.join(os.environ.get("TMPDIR", "/tmp"), "verif-evidence-not-repo")
 REPLAYS = os.path.join(VERIF, "replays")
 REPO = os.environ.get("PICOSVG_REPO", "/repo")
 JAR = "/opt/veriftools/tla/tla2tools.jar:/opt/veriftools/tla/CommunityModules-deps.jar"
